@@ -50,9 +50,12 @@ fn cli_run(start: &Option<Vec<u8>>, name: &str, patch: &[u8], strip: usize, reve
 
 pub fn emit<W: Write>(out: &mut W, id: usize, a: &Option<Vec<u8>>, b: &Option<Vec<u8>>, reverse: bool, strip: usize, name: &str, patch: &[u8], cli: bool) {
     let start = if reverse { b } else { a };
+    let input = format!("C|{}|{}|{}|{}|{}|{}", id, opt_hex(a), opt_hex(b), if reverse { "R" } else { "F" }, strip, hex(patch));
+    crate::watch::begin(input.clone());
     let lib = lib_run(start, patch, strip, reverse);
     let c = if cli { cli_run(start, name, patch, strip, reverse) } else { "-".to_string() };
-    writeln!(out, "C|{}|{}|{}|{}|{}|{}|=>|{}|{}", id, opt_hex(a), opt_hex(b), if reverse { "R" } else { "F" }, strip, hex(patch), lib, c).unwrap();
+    crate::watch::end();
+    writeln!(out, "{}|=>|{}|{}", input, lib, c).unwrap();
 }
 
 pub fn run<W: Write>(out: &mut W, seed: u64, n: usize, opts: &HashMap<String, String>) {
